@@ -17,17 +17,31 @@ from common import Suite, Violation, scratch_dir
 from jadeenv import jname, jid
 
 MODES_BY_PROP = {
-    "C01": ["plain", "plain", "plain", "busy", "resubmit"], "C02": ["plain", "plain", "busy", "local", "resubmit"],
+    "C01": ["plain", "plain", "plain", "busy", "resubmit"], "C02": ["plain", "plain", "busy", "local", "resubmit", "resubmit", "nodefaults"],
     "C03": ["plain", "plain", "busy", "local"],
-    "C04": ["plain", "plain", "busy", "local"], "C05": ["plain", "busy", "plain"], "C06": ["plain", "busy", "local"],
-    "C09": ["plain", "busy", "cancel"], "C11": ["faults"], "C12": ["batchfaults"], "C14": ["cancel"],
+    "C04": ["plain", "plain", "busy", "local"], "C05": ["plain", "busy", "plain"],
+    # C06 holds for ALL op sequences of the model (faults included): fault modes and resubmission get half shares
+    "C06": ["plain", "busy", "local", "plain", "busy", "local", "faults", "batchfaults", "flaky", "resubmit"],
+    "C09": ["plain", "busy", "cancel"], "C11": ["faults", "faults", "faults", "nodefaults"],
+    "C12": ["batchfaults", "batchfaults", "batchfaults", "nodefaults"], "C14": ["cancel"],
     "C16": ["hooks", "hooks", "hookslocal"], "C13": ["resubmit"], "C07": ["resubmit"],
 }
+# modes added to a property's list on top of its original ones: the original modes keep their number of cases
+ADDED_MODES = {"C01": ("resubmit",), "C02": ("resubmit", "nodefaults"), "C06": ("faults", "batchfaults", "flaky", "resubmit"),
+               "C11": ("nodefaults",), "C12": ("nodefaults",)}
 MAX_USER_TRYSUBMITS = 10
 MAX_OPS = 1500
 # modes in which the fake scheduler may list a live batch under a state word outside JADE's table
 ODD_STATE_MODES = ("plain", "busy", "cancel", "resubmit")
 SLOWEXT_MODES = ("plain", "busy", "batchfaults")
+# batches are lost (failed sbatch, dead node, node runner killed by a filesystem fault), nothing else goes wrong:
+#   batchfaults - sbatch fails / nodes are lost;  nodefaults - lock timeout / quota error when a NODE appends a result
+#   flaky       - the scheduler's commands fail transiently (squeue for all its retries, sbatch) in any round
+BATCHFAULT_MODES = ("batchfaults", "nodefaults", "flaky")
+# a process parked at squeue/sbatch/scancel stays there for up to a few virtual minutes (VCluster.hang)
+HANG_MODES = {"cancel": .5, "busy": .3, "faults": .3, "flaky": .3}
+HANG_SECONDS = (20, 45, 70, 90, 120, 200, 300)
+MAX_CANCEL_RUNS = 3
 
 
 # ----------------------------------------------------------------------------------------------
@@ -149,6 +163,9 @@ def gen_scenario(rng, mode):
         tb = rng.random() < .35
         groups.append({"batchSize": rng.choice([1, 1, 2, 2, 3, 4]), "timeBased": tb, "tryAdd": rng.random() < .6, "wallSec": wall,
                        "procs": rng.choice([1, 2, 3]) if (tb or rng.random() < .7) else None, "dryRun": False})
+        if mode == "nodefaults" and rng.random() < .6:
+            # the node-level queue matters when blocked jobs travel with their blockers
+            groups[-1].update(batchSize=rng.choice([2, 3, 4, 4]), tryAdd=True)
     p = rng.choice([.15, .3, .3, .5])
     order = list(range(n))
     rng.shuffle(order)
@@ -215,6 +232,23 @@ class Run:
         self.resubs = []          # resubmit-jobs invocations: what the user asked for and what must follow from it
         self.epoch_info = [{"R": set(j["id"] for j in self.sc["jobs"]), "prev": {}, "expected": self.ref, "groups": None}]
         self.lost_done = False
+        # decisions about the fault kinds added later draw from a second stream, so that a run without such a fault is
+        # the run it always was
+        self.rng2 = random.Random(case["seed"] * 7919 + 13)
+        self.hang_plan = self.rng2.random() < HANG_MODES.get(self.mode, 0)
+        # faults mode: the single fault strikes in any round, not mostly in the first one
+        self.fault_after = self.rng2.choice([0, 0, 0, 0, 10, 20, 40, 70])
+        # ... and which kind of moment it prefers: any yield point of a submitter (generic), inside the two-lock section that
+        # moves a node's results (nested), in the middle of the submit phase (midround); the preferred moment may never come
+        self.fault_family = self.rng2.choice(["generic", "generic", "nested", "midround"])
+        self.hangs_done = 0
+        self.cancel_runs = 0
+        self.node_faults = 0
+        self.flaky_faults = 0
+        self.immediate_resub = self.rng2.random() < .5      # resubmit mode: the user does not wait for the old batches to leave
+        self.force_pid = None       # a user command that runs without interruption up to `force_until`
+        self.holders = set()        # processes that were promoted (or created the submission) and have not demoted
+        self.alive_at_mark = None   # batches queued or running when the canceled flag was written
 
     def bad(self, prop, key, msg):
         self.checks.append((prop, key, msg))
@@ -241,6 +275,11 @@ class Run:
         for i, jp in enumerate(vc.jobprocs):
             if jp.exited is None and jp.returncode is None and vc.procs[jp.node].state == "ready":
                 m.append((2.0, ["jobexit", i]))
+        if vc.hang_active():
+            # time passes although nobody is sleeping (rarely, unless nothing else can happen)
+            sleepers = any(p.at[0] == "SLEEP" for p in vc.live())
+            if not m or not sleepers:
+                m.append((.02 if m else 1.0, ["tick"]))
         return m
 
     def apply(self, op):
@@ -265,13 +304,19 @@ class Run:
             vc.kill(op[1])
         elif k == "killin":
             vc.procs[op[1]].kill_in = op[2]
+            vc.procs[op[1]].late = len(op) > 3 and op[3] == "late"
             vc.step(op[1])
         elif k == "failext":
             vc.procs[op[1]].fail_ext = op[2]
             vc.procs[op[1]].fail_ext_cmd = op[3] if len(op) > 3 else None
         elif k == "failwrite":
             vc.procs[op[1]].fail_write = op[2]
+            vc.procs[op[1]].late = len(op) > 3 and op[3] == "late"
             vc.step(op[1])
+        elif k == "hangext":
+            vc.hang(op[1], op[2])
+        elif k == "tick":
+            vc.tick()
         elif k == "locktimeout":
             vc.procs[op[1]].lock_timeout = True
             vc.step(op[1])
@@ -294,6 +339,14 @@ class Run:
                 self.on_start(e)
             elif kind == "sbatch" and e[4] is not None:
                 self.on_sbatch(e)
+            elif kind == "spawn" and e[3] == "submit":
+                self.holders.add(e[2])              # Cluster.create: submitter from birth
+            elif kind == "promote" and e[3]:
+                self.on_promote(e[2])
+            elif kind in ("demote", "procexit", "kill", "killin"):
+                self.holders.discard(e[2])
+            elif kind == "markcanceled" and self.alive_at_mark is None:
+                self.alive_at_mark = {h for h, b in vc.slurm.items() if b["state"] in ("pending", "running")}
         # status snapshot whenever the cluster lock is free
         if self.mode == "resubmit" and any(p.kind == "resubmit" and p.state == "ready" for p in vc.procs.values()):
             self.resubmitted_since_prev = True
@@ -309,17 +362,32 @@ class Run:
         rows = {r[1] for r in self.vc.read_rows()}
         missing = [b for b in self.sc["jobs"][j]["blockers"] if b not in rows]
         if missing:
-            prop = "C11" if self.mode == "faults" else "C02"
-            self.bad(prop, "start.before_blocker", f"job {j} started (batch {batch}) while blockers {missing} have no recorded outcome")
-            if self.mode == "batchfaults":
-                self.bad("C12", "start.before_blocker", f"job {j} started while blockers {missing} have no recorded outcome")
-            if prop != "C02":
-                self.bad("C02", "start.before_blocker", f"job {j} started while blockers {missing} have no recorded outcome")
+            for prop in self.order_props():
+                self.bad(prop, "start.before_blocker", f"job {j} started (batch {batch}) while blockers {missing} have no recorded outcome")
         # per-node process limit
         live = sum(1 for jp in self.vc.jobprocs if jp.node == pid and jp.exited is None and jp.returncode is None)
         lim = self.node_workers(batch)
         if lim is not None and live > lim:
             self.bad("C06", "node.workers", f"{live} job processes running on the node of batch {batch}, limit {lim}")
+
+    def order_props(self):
+        """properties whose text demands dependency order in this mode"""
+        return {"faults": ["C11", "C02"], "batchfaults": ["C02", "C12"], "flaky": ["C02", "C12"],
+                "nodefaults": ["C02", "C12", "C11"]}.get(self.mode, ["C02"])
+
+    def on_promote(self, pid):
+        """C10/C01 mechanism: only one promoted submitter at a time.  A process that was promoted, is alive and has not
+        demoted still holds the role - a second promotion meanwhile means two processes mutate the state
+        (not judged under injected kills/failures: there a dead or failed holder is taken care of by C11)."""
+        vc = self.vc
+        others = sorted(h for h in self.holders if h != pid and vc.procs[h].state == "ready")
+        self.holders.add(pid)
+        if others and self.mode in ("plain", "busy", "cancel", "resubmit", "hooks"):
+            msg = (f"{vc.procs[pid].kind} process {pid} was promoted to submitter while process(es) {others} "
+                   f"({', '.join(vc.procs[h].kind for h in others)}) are alive, were promoted earlier and have not demoted")
+            self.bad("C01", "role.two_live_holders", msg)
+            if self.mode == "cancel":
+                self.bad("C14", "cancel.role_taken_from_live_submitter", msg)
 
     def node_workers(self, batch):
         sc = self.sc
@@ -419,9 +487,18 @@ class Run:
             if c:
                 self.lost_done = True
                 return ["nodelost", rng.choice(c)]
-        # user commands are issued against an existing submission: only after submit-jobs has returned
+        x = self.maybe_boundary_fault()
+        if x is not None:
+            return x
+        # user commands are issued against an existing submission: only after submit-jobs has returned - or while it is
+        # stuck in a scheduler command (the submission exists by then; the user opens a second terminal)
         if vc.procs and vc.procs[1].state == "ready" and mode in ("busy", "cancel"):
+            if mode == "cancel" and vc.procs[1] in vc.hung():
+                return self.maybe_user_reaction()
             return None
+        x = self.maybe_user_reaction()
+        if x is not None:
+            return x
         if mode == "busy" and rng.random() < .04:
             return ["spawn", rng.choice(["trysubmit", "trysubmit", "showstatus"])]
         if mode == "busy" and rng.random() < .08 and self.user_busy < 6 and \
@@ -431,12 +508,15 @@ class Run:
             return ["spawn", "trysubmit"]
         if mode == "busy" and rng.random() < .02:
             return ["noise"]
-        if mode == "cancel" and self.cancel_info is None and rng.random() < .05 and len(vc.trace) > 3:
+        if mode == "cancel" and self.cancel_info is None and rng.random() < .05 and len(vc.trace) > 3 and \
+                not (self.hang_plan and not self.hangs_done and self.rng2.random() < .8):
+            # (a run that plans a stuck scheduler command mostly waits for it: that is when users reach for cancel-jobs)
             self.cancel_info = {"at": vc.step_no}
+            self.cancel_runs += 1
             return ["spawn", "cancel", rng.random() < .6]
         if mode == "cancel" and self.cancel_info is not None and rng.random() < .03:
             return ["spawn", rng.choice(["trysubmit", "showstatus"])]
-        if mode == "batchfaults" and vc.procs and vc.procs[1].state != "ready" and self.user_busy < 4 and rng.random() < \
+        if mode in BATCHFAULT_MODES and vc.procs and vc.procs[1].state != "ready" and self.user_busy < 4 and rng.random() < \
                 (.08 if [b["state"] for b in vc.slurm.values() if b["state"] in ("pending", "running")] == ["running"] else .01):
             # the user may look at any time (try-submit-jobs is what show-status offers), also while batches die
             self.user_busy += 1
@@ -453,17 +533,37 @@ class Run:
                 c += [h for h, b in vc.slurm.items() if b["state"] == "pending"]
                 if c:
                     return ["nodelost", rng.choice(c)]
-        if mode == "faults" and not self.fault_done:
+        if mode == "faults" and not self.fault_done and len(self.ops) >= self.fault_after:
             subs = [p for p in vc.live() if p.kind in ("submit", "trysubmit") and vc.enabled(p.pid)]
+            family = self.fault_family if len(self.ops) < 120 else "generic"
             nested = [p for p in subs if p.holding and p.at[0] == "ACQ"]
-            if nested and rng.random() < .25:
+            if nested and family != "midround" and rng.random() < (.35 if family == "nested" else .25):
                 # about to enter a section under two locks (moving a node's results into the consolidated file):
                 # the process dies / the filesystem fails at one of the first mutations inside it
                 p = rng.choice(nested)
                 self.fault_done = True
                 self.fault_kind = rng.choice(["killin", "failwrite"])
-                return [self.fault_kind, p.pid, rng.randrange(0, 3)]
-            if subs and rng.random() < .12:
+                # the section mutates twice: open(consolidated file, append), remove(node file).  Fault points: before the
+                # open, after the open (file opened, nothing written yet), before the removal
+                k = rng.randrange(0, 3)
+                if k == 2:
+                    self.fault_kind += ".late"
+                    return [self.fault_kind.split(".")[0], p.pid, 0, "late"]
+                return [self.fault_kind, p.pid, k]
+            midround = [p for p in subs if p.at[0] == "EXT" and str(p.at[1]).startswith("sbatch")]
+            if midround and family != "nested" and self.rng2.random() < (.35 if family == "midround" else .1):
+                # in the middle of the submit phase: an sbatch is about to run; the same step then writes the three files of
+                # the round's next batch, if any (config, run script, sbatch script) - with a batch already on the HPC
+                p = self.rng2.choice(midround)
+                self.fault_done = True
+                kind = self.rng2.choice(["kill", "killin", "failwrite", "failwrite", "failext"])
+                self.fault_kind = kind
+                if kind == "kill":
+                    return ["kill", p.pid]
+                if kind == "failext":
+                    return ["failext", p.pid, 1]
+                return [kind, p.pid, self.rng2.randrange(0, 3)] + self.late_flavour()
+            if subs and family == "generic" and rng.random() < .12:
                 p = rng.choice(subs)
                 self.fault_done = True
                 kind = rng.choice(["kill", "kill", "killin", "killin", "failext", "failwrite", "locktimeout", "squeue7"])
@@ -471,13 +571,13 @@ class Run:
                 if kind == "kill":
                     return ["kill", p.pid]
                 if kind == "killin":
-                    return ["killin", p.pid, rng.randrange(0, 9)]
+                    return ["killin", p.pid, rng.randrange(0, 9)] + self.late_flavour()
                 if kind == "failext":
                     return ["failext", p.pid, rng.choice([1, 1, 2, 7])]
                 if kind == "squeue7":
                     return ["failext", p.pid, 7, "squeue"]
                 if kind == "failwrite":
-                    return ["failwrite", p.pid, rng.randrange(0, 9)]
+                    return ["failwrite", p.pid, rng.randrange(0, 9)] + self.late_flavour()
                 if kind == "locktimeout":
                     return ["locktimeout", p.pid]
         if mode == "faults" and self.fault_done and self.vc.break_stale and rng.random() < .05:
@@ -491,6 +591,88 @@ class Run:
                 if pid is None or vc.procs[pid].state != "ready":
                     return ["breaklock"]
         return None
+
+    # ------------------------------------------------------------------ faults at the process boundary (second stream)
+    def maybe_boundary_fault(self):
+        """scheduler commands that hang or fail transiently, filesystem faults on the nodes"""
+        vc, rng, mode = self.vc, self.rng2, self.mode
+        sched = ("squeue", "sbatch", "scancel")
+
+        def at_ext(p, cmds=sched):
+            return p.at[0] == "EXT" and str(p.at[1]).split(" ")[0] in cmds
+        if self.hang_plan and self.hangs_done < 3 and not vc.hang_active():
+            # a submitter round (it holds the role) or cancel-jobs stuck in a scheduler command
+            c = [p for p in vc.live() if p.kind in ("submit", "trysubmit", "cancel", "resubmit") and at_ext(p) and p.hang_until is None]
+            if c and rng.random() < (.25 if mode == "cancel" else .12):
+                self.hangs_done += 1
+                return ["hangext", rng.choice(c).pid, rng.choice(HANG_SECONDS)]
+        if mode == "cancel":
+            c = [p for p in vc.live() if p.kind == "cancel" and at_ext(p, ("scancel",)) and p.fail_ext == 0]
+            if c and rng.random() < .08:
+                return ["failext", rng.choice(c).pid, 1, "scancel"]       # transient controller error
+        if mode == "nodefaults" and self.node_faults < 3:
+            # the node is about to append a result (finished or canceled job) to its results file
+            c = [p for p in vc.live() if p.kind == "node" and p.at[0] == "ACQ" and "results_batch_" in str(p.at[1])
+                 and not p.lock_timeout and vc.enabled(p.pid)]
+            if c and rng.random() < .15:
+                self.node_faults += 1
+                p = rng.choice(c)
+                kind = rng.choice(["locktimeout", "locktimeout", "failwrite", "failwrite.late"])
+                self.fault_kind = "node." + kind
+                if kind == "locktimeout":
+                    return ["locktimeout", p.pid]
+                return ["failwrite", p.pid, 0] + (["late"] if kind.endswith("late") else [])
+        if mode == "flaky" and self.flaky_faults < 4:
+            c = [p for p in vc.live() if p.kind in ("submit", "trysubmit") and at_ext(p, ("squeue", "sbatch")) and p.fail_ext == 0]
+            if c and rng.random() < .2:
+                self.flaky_faults += 1
+                p = rng.choice(c)
+                if at_ext(p, ("squeue",)):
+                    self.fault_kind = "flaky.squeue"
+                    return ["failext", p.pid, rng.choice([1, 2, 7, 7, 7]), "squeue"]
+                self.fault_kind = "flaky.sbatch"
+                return ["failext", p.pid, 1, "sbatch"]
+        return None
+
+    def maybe_user_reaction(self):
+        """what the user does when a command did not do its job: cancel-jobs again; resubmit-jobs without waiting"""
+        vc, rng, mode = self.vc, self.rng2, self.mode
+        users_busy = any(p.kind in ("cancel", "resubmit") for p in vc.live())
+        if mode == "cancel" and not users_busy:
+            if self.cancel_info is None and vc.hang_active() and len(vc.trace) > 3 and rng.random() < .3:
+                # a submitter round is stuck: the moment at which users reach for cancel-jobs
+                self.cancel_info = {"at": vc.step_no}
+                self.cancel_runs += 1
+                return ["spawn", "cancel", rng.random() < .6]
+            if self.cancel_info is not None and self.cancel_runs < MAX_CANCEL_RUNS and rng.random() < .08 and self.cancel_unfinished():
+                self.cancel_runs += 1
+                return ["spawn", "cancel", rng.random() < .6]
+        if mode == "resubmit" and self.immediate_resub and not users_busy and rng.random() < .5:
+            st = vc.read_status()
+            if st and st["complete"] and st["submitter"] is None and len(self.resubs) < self.sc.get("resub", {}).get("times", 0) \
+                    and any(p.kind == "node" for p in vc.live()) and not any(p.kind != "node" for p in vc.live()) \
+                    and not any(jp.exited is None and jp.returncode is None and vc.procs[jp.node].state == "ready" for jp in vc.jobprocs):
+                # the completion flag is on disk, batches of the finished epoch are still listed by squeue
+                op = self.plan_resubmit()
+                if op is not None:
+                    return op + ["now"]
+        return None
+
+    def late_flavour(self):
+        """half of the file faults strike after the open succeeded: the file is created / truncated, the first write fails
+        (quota, ENOSPC) or never reaches the disk (kill before the buffer is flushed)"""
+        if self.rng2.random() < .5:
+            self.fault_kind += ".late"
+            return ["late"]
+        return []
+
+    def cancel_unfinished(self):
+        """the user looks at show-status / squeue after cancel-jobs returned: not marked canceled (it gave up waiting for
+        the submitter role), or batches are still queued or running (a scancel failed)"""
+        st = self.vc.read_status()
+        if st is None or st["complete"]:
+            return False
+        return not st["canceled"] or any(b["state"] in ("pending", "running") for b in self.vc.slurm.values())
 
     def run(self):
         vc = self.vc
@@ -518,7 +700,7 @@ class Run:
                     continue
                 if op[0] == "nodelost" and self.vc.slurm.get(op[1], {}).get("state") not in ("pending", "running"):
                     continue
-                if op[0] in ("kill", "killin", "failext", "failwrite", "locktimeout") and (op[1] not in self.vc.procs or self.vc.procs[op[1]].state != "ready"):
+                if op[0] in ("kill", "killin", "failext", "failwrite", "locktimeout", "hangext") and (op[1] not in self.vc.procs or self.vc.procs[op[1]].state != "ready"):
                     continue
                 self.apply(list(op))
             except KeyError:
@@ -528,6 +710,10 @@ class Run:
     def explore(self):
         self.apply(["spawn", "submit", True] if self.sc.get("local") else ["spawn", "submit"])
         while len(self.ops) < self.max_ops():
+            if self.force_pid is not None:
+                if self.forced_step():
+                    continue
+                self.force_pid = None
             extra = self.maybe_extra()
             if extra is not None:
                 self.apply(extra)
@@ -538,6 +724,16 @@ class Run:
                     break
                 continue
             self.apply(self.choose(menu))
+
+    def forced_step(self):
+        """the process `force_pid` runs on until its first scheduler poll (or until it ends / has to wait)"""
+        vc, pid = self.vc, self.force_pid
+        if pid not in vc.procs or not vc.enabled(pid):
+            return False
+        if any(e[1] in ("squeue", "sbatch") and e[2] == pid for e in vc.trace):
+            return False
+        self.apply(["step", pid])
+        return True
 
     def drain(self):
         """after an explicit op list: run to quiescence with the documented recovery"""
@@ -568,6 +764,11 @@ class Run:
                 return True
             # give the user a chance anyway (their process will block too) - stop instead
             return False
+        if self.mode == "cancel" and self.cancel_info is not None and self.cancel_runs < MAX_CANCEL_RUNS and self.cancel_unfinished():
+            # cancel-jobs gave up ("Failed to get promoted to submitter"): the user runs it again
+            self.cancel_runs += 1
+            self.apply(["spawn", "cancel", True])
+            return True
         if self.user_trysubmits >= MAX_USER_TRYSUBMITS * len(self.epoch_info):      # per (resubmission) epoch
             return False
         self.user_trysubmits += 1
@@ -584,8 +785,10 @@ class Run:
         tr = vc.trace
         n = len(sc["jobs"])
         jobs = {j["id"]: j for j in sc["jobs"]}
-        faulty = mode in ("faults", "batchfaults")
+        faulty = mode in ("faults",) + BATCHFAULT_MODES
         P1 = "C11" if mode == "faults" else "C01"
+        # node-side filesystem faults are failures "on login node or compute node" of C11's quantifier as well
+        PX = ["C11"] if mode == "nodefaults" else []
         if mode == "resubmit":
             return self.final_checks_resubmit()       # epoch-aware versions of the checks below
         # ---- placements and starts (C01 / C11)
@@ -597,18 +800,16 @@ class Run:
                 key = (pid, bidx)
                 if bidx in by_idx and by_idx[bidx] != pid:
                     self.bad(P1, "batch.id_reused", f"batch identifier {bidx} used by processes {by_idx[bidx]} and {pid}")
-                    if P1 != "C01":
-                        self.bad("C01", "batch.id_reused", f"batch identifier {bidx} used twice")
+                    for px in PX + (["C01"] if P1 != "C01" else []):
+                        self.bad(px, "batch.id_reused", f"batch identifier {bidx} used twice")
                 by_idx.setdefault(bidx, pid)
                 for k, _bl in jl:
                     placed.setdefault(k, set()).add(key)
         for k, keys in placed.items():
             if len(keys) > 1 and not self.any_resubmit():
                 self.bad(P1, "job.two_batches", f"job {k} was placed in batches {sorted(b for _, b in keys)}")
-                if P1 != "C01":
-                    self.bad("C01", "job.two_batches", f"job {k} was placed in batches {sorted(b for _, b in keys)}")
-                if mode == "batchfaults":
-                    self.bad("C12", "job.two_batches", f"job {k} was placed in two batches")
+                for px in PX + (["C01"] if P1 != "C01" else []) + (["C12"] if mode in BATCHFAULT_MODES else []):
+                    self.bad(px, "job.two_batches", f"job {k} was placed in batches {sorted(b for _, b in keys)}")
         starts = {}
         for e in tr:
             if e[1] == "start":
@@ -616,8 +817,8 @@ class Run:
         for k, c in starts.items():
             if c > 1 and not self.any_resubmit():
                 self.bad(P1, "job.started_twice", f"job {k} was started {c} times")
-                if P1 != "C01":
-                    self.bad("C01", "job.started_twice", f"job {k} was started {c} times")
+                for px in PX + (["C01"] if P1 != "C01" else []):
+                    self.bad(px, "job.started_twice", f"job {k} was started {c} times")
         if not faulty:
             # a job canceled by a submitter round (it was not yet submitted: the row goes straight into the consolidated
             # file) is never handed to the HPC; a job canceled on its node is in that node's batch and nowhere else (C01)
@@ -634,8 +835,8 @@ class Run:
             for e in written:
                 key = (jid(e[4][0]), int(e[4][1]), e[4][2])
                 if on_disk.get(key, 0) < 1:
-                    self.bad("C11" if mode == "faults" else "C12" if mode == "batchfaults" else "C03", "row.lost",
-                             f"the result {key} was written but is on disk nowhere at the end")
+                    for px in [("C11" if mode == "faults" else "C12" if mode in BATCHFAULT_MODES else "C03")] + PX:
+                        self.bad(px, "row.lost", f"the result {key} was written but is on disk nowhere at the end")
         exits = {}
         for e in tr:
             if e[1] == "jobexit":
@@ -653,9 +854,10 @@ class Run:
                         self.bad("C04", "cancel.without_failed_blocker", f"job {k} was canceled but none of its blockers failed or was canceled")
                 elif r[3] == "finished":
                     if k not in exits or exits[k] != r[2]:
-                        self.bad("C12" if mode == "batchfaults" else "C03", "row.fabricated", f"job {k} has a finished result rc={r[2]} but its process exit was {exits.get(k)}")
+                        self.bad("C12" if mode in BATCHFAULT_MODES else "C03", "row.fabricated", f"job {k} has a finished result rc={r[2]} but its process exit was {exits.get(k)}")
             if len({(r[2], r[3]) for r in rs}) > 1 or (len(rs) > 1 and not faulty):
-                self.bad("C03" if not faulty else P1, "row.duplicate", f"job {k} has {len(rs)} results on disk: {[(r[0], r[2], r[3]) for r in rs]}")
+                for px in ["C03" if not faulty else P1] + PX:
+                    self.bad(px, "row.duplicate", f"job {k} has {len(rs)} results on disk: {[(r[0], r[2], r[3]) for r in rs]}")
         # started flagged job whose blocker had failed at start time is covered online by C02; C04: flagged job started although a blocker failed
         for k, c in starts.items():
             if jobs[k]["cancel"] and self.ref[k][0] == "canceled" and not faulty and mode != "cancel":
@@ -703,7 +905,7 @@ class Run:
                     self.bad("C05", "progress.stuck_round", "try-submit-jobs at a quiescent, incomplete state neither submitted a batch nor completed the submission")
             # a round leaves an unblocked job unsubmitted only when the node limit is reached
             self.check_rounds_leave_only_when_full()
-        if mode == "batchfaults":
+        if mode in BATCHFAULT_MODES:
             if not complete and not self.deadlocked:
                 self.bad("C12", "progress.incomplete", f"the submission did not reach completion after {self.user_trysubmits} try-submit-jobs (batch faults only)")
             if complete and results is not None:
@@ -834,6 +1036,14 @@ class Run:
             notasked = sorted(need - scan)
             if notasked:
                 self.bad("C14", "cancel.batch_not_cancelled", f"batches {notasked} were queued or running when cancel-jobs ran but were not passed to scancel")
+        # every batch that was queued or running when the flag was written had been asked to be canceled by then; one handed
+        # to the HPC afterwards (which must not happen at all) is asked later, if ever
+        asked_by_mark = {e[3] for e in tr if e[1] == "scancel" and e[0] <= t}
+        asked_ever = {e[3] for e in tr if e[1] == "scancel"}
+        never = sorted(((self.alive_at_mark or set()) - asked_by_mark) | ({e[4] for e in late if e[4] is not None} - asked_ever))
+        if never:
+            self.bad("C14", "cancel.alive_batch_never_cancelled", f"batches {never} were queued or running at/after the moment the submission "
+                     "was marked canceled and no scancel was issued for them")
         if complete and results is not None:
             self.check_final_results(results, "C14", expect_ref=False)
 
@@ -993,10 +1203,17 @@ class Run:
 
     def next_resubmit(self, st):
         """the submission is complete and idle: the user reruns jobs with `resubmit-jobs` (flags as the CLI allows)"""
+        op = self.plan_resubmit()
+        if op is None:
+            return False
+        self.apply(op)
+        return True
+
+    def plan_resubmit(self):
         sc, rng = self.sc, self.rng
         plan = sc.get("resub") or {}
         if len(self.resubs) >= plan.get("times", 0):
-            return False
+            return None
         failed, missing, successful = rng.random() < .8, rng.random() < .7, rng.random() < .25
         gi = len(self.resubs) if rng.random() < plan.get("regroupProb", .4) else None
         prev = self.outcomes_on_disk()
@@ -1013,8 +1230,7 @@ class Run:
             # a flagged job would be rerun while a failed blocker of it is not: JADE then runs it (it only looks at
             # blockers that are rerun) - reported separately, not generated here
             failed = True
-        self.apply(["spawn", "resubmit", failed, missing, successful, gi])
-        return True
+        return ["spawn", "resubmit", failed, missing, successful, gi]
 
     def begin_resubmit(self, op):
         """bookkeeping of one `resubmit-jobs` invocation (also on replay): close the epoch that just ended, work out
@@ -1023,7 +1239,11 @@ class Run:
         failed, missing, successful = bool(op[2]), bool(op[3]), bool(op[4])
         gi = op[5] if len(op) > 5 else None
         st = vc.read_status()
-        accept = bool(st and st["complete"] and st["submitter"] is None and not vc.live())
+        # "now": issued right after the completion flag appeared - nodes of the finished epoch may still be alive (teardown,
+        # not yet reaped: their batches are still listed by squeue), but no other command is running
+        now = len(op) > 6 and op[6] == "now"
+        idle = not vc.live() or (now and not any(p.kind != "node" for p in vc.live()))
+        accept = bool(st and st["complete"] and st["submitter"] is None and idle)
         prev = self.outcomes_on_disk()
         R = rerun_closure(sc, resubmit_selection(prev, failed, missing, successful))
         path, groups = None, None
@@ -1037,6 +1257,9 @@ class Run:
             self.close_epoch()
         vc.step_no += 1
         p = vc.spawn_user("resubmit", failed, missing, successful, path)
+        if now:
+            self.force_pid = p.pid      # resubmit-jobs gets to its first scheduler poll before the old nodes are gone
+            self.resub_now_alive = getattr(self, "resub_now_alive", 0) + sum(1 for b in vc.slurm.values() if b["state"] in ("pending", "running"))
         self.resubs.append({"pid": p.pid, "accept": accept, "R": R, "prev": prev, "flags": (failed, missing, successful),
                             "gi": gi if path else None, "times": self.row_times(), "at": len(vc.trace)})
         if accept:
@@ -1279,6 +1502,13 @@ class Run:
             "errors": [e[5] for e in vc.trace if e[1] == "procexit" and e[5]][:5],
             "unknown_ext": [e for e in vc.trace if e[1] == "unknown_ext"][:3],
             "lockset": lockset_audit(self),
+            "scancel_fail": sorted({f"{e[4]}.{'live' if e[5] else 'gone'}" for e in vc.trace if e[1] == "scancelfail"}),
+            "cancel_runs": self.cancel_runs,
+            "cancel_gave_up": sum(1 for e in vc.trace if e[1] == "procexit" and e[3] == "cancel" and e[4] == 1 and
+                                  not any(x[1] == "markcanceled" and x[2] == e[2] for x in vc.trace)),
+            "resubmit_now": sum(1 for op in self.ops if op[0] == "spawn" and op[1] == "resubmit" and len(op) > 6 and op[6] == "now"),
+            "resubmit_now_alive": getattr(self, "resub_now_alive", 0),
+            "late_faults": sum(1 for e in vc.trace if e[1] in ("killin", "failwrite") and e[-1] == "late"),
         }
         hist = translate(self)
         return {"model": None, "obs": obs, "hist": hist}
@@ -1337,6 +1567,10 @@ def translate(run):
         return {"scn": None, "events": [], "expected": [], "final": {}}
     if any(e[1] in ("prepare",) for e in vc.trace) or any(p.kind == "resubmit" for p in vc.procs.values()):
         # the system model has no resubmission (C13 is a component-level proof): the oracles decide
+        return "skip"
+    if any(e[1] == "scancelfail" and e[4] == "transient" and e[5] for e in vc.trace):
+        # the model's `scancel` ends the batch (assumption of C14: "scancel of a listed id ends that batch"); a scancel that
+        # fails transiently on a LIVE batch leaves it running, which no op of the model expresses: the oracles decide
         return "skip"
     tr = vc.trace
     kinds = {p.pid: p.kind for p in vc.procs.values()}
@@ -1527,7 +1761,11 @@ class SystemSuite(Suite):
         n = {"quick": 120, "thorough": 2500}[tier]
         if prop in ("C11", "C12"):
             n = {"quick": 200, "thorough": 4000}[tier]
-        extra = modes.count("resubmit")
+        if prop == "C11" and tier == "quick":
+            n = 450       # the single fault must coincide with rare moments (mid-round, later collection rounds); a case is cheap
+        if prop == "C06" and tier == "thorough":
+            n = 1500      # C06's queue and batch suites take most of the thorough budget; resubmission epochs cost 2-3 cases each
+        extra = sum(1 for m in modes if m in ADDED_MODES.get(prop, ()))
         if 0 < extra < len(modes):
             n = n * len(modes) // (len(modes) - extra)      # the other modes keep their number of cases
         out = []
@@ -1586,7 +1824,12 @@ class SystemSuite(Suite):
             return d
         for i, (o, e, ev) in enumerate(zip(model["outs"], h["expected"], h["events"])):
             if ev["op"] == "summary":
-                if sorted(o["rows"]) != ev["_rows"] or o["missing"] != ev["_missing"]:
+                # A duplicate row in the consolidated file (left by a submitter that failed between copy and removal in
+                # `_move_results`) can make len(results) == num_jobs although a job has no result: the unchanged
+                # `_handle_completion` then reports no missing job at all (findings/f9e_duplicate_row_masks_missing.py,
+                # reported; outside the quantifiers of C11/C12).  On such histories only the rows are compared.
+                dup = len({r[0] for r in ev["_rows"]}) != len(ev["_rows"])
+                if sorted(o["rows"]) != ev["_rows"] or (o["missing"] != ev["_missing"] and not dup):
                     d.append(f"event {i} summary: model {o} observed missing={ev['_missing']} rows={ev['_rows']}")
                 continue
             if e == "*" or o == "stutter":
@@ -1652,6 +1895,22 @@ class SystemSuite(Suite):
             t.append("hosts.shared")
         if o.get("style") == "slowext":
             t.append("style.slowext")
+        if o["events"].get("hangext"):
+            t.append("ext.hang")
+        if o["events"].get("tick"):
+            t.append("ext.hang.tick")
+        for k in o.get("scancel_fail", []):
+            t.append(f"scancel.fail.{k}")
+        if o.get("cancel_gave_up"):
+            t.append("cancel.gave_up_waiting_for_role")
+        if o.get("cancel_runs", 0) > 1:
+            t.append("cancel.rerun")
+        if o.get("resubmit_now"):
+            t.append("resubmit.immediately")
+        if o.get("resubmit_now_alive"):
+            t.append("resubmit.immediately.old_batches_listed")
+        if o.get("late_faults"):
+            t.append("fault.file.after_open")
         return t
 
     def shrink(self, case):
